@@ -287,8 +287,63 @@ def judgeMqtt : Judge := liftJudge fun input obs => do
          expected := Json.arr (want.map (fun b => Json.num (if b then 1 else 0))).toArray,
          sig := if spec then "" else "mqtt:period-bound-exceeded" }
 
+/-! ### filter level, waiting requests and cancellations (`wait` harness, Extension resil) -/
+
+def judgeWait : Judge := liftJudge fun input obs => do
+  match obsPanic obs with
+  | some m => pure { agree := false, spec := false, sig := "wait:panic", note := m }
+  | none =>
+  match getStr obs "error" with
+  | .ok e => pure { agree := true, spec := true, note := "harness-error: " ++ e, tags := ["harness-error"], nontrivial := false }
+  | .error _ =>
+  let inconclusive := optStr obs "inconclusive"
+  if inconclusive != "" then
+    pure { agree := true, spec := true, note := "inconclusive: " ++ inconclusive, tags := ["inconclusive"], nontrivial := false }
+  else
+  let L ← getInt input "L"
+  let P ← getInt input "periodNs"
+  let T := P * optInt input "timeoutN"
+  let p : Policy := { L := L, P := P, T := T }
+  let ops := (← getArr input "ops").toList
+  let reqOps := ops.filter (fun o => optStr o "op" == "req")
+  let reqs := (← getArr obs "reqs").toList
+  -- model: the arrivals in order, one permit each; a cancellation leaves the reservation where it is
+  let (_, outs) := reqs.foldl (fun (acc : RL × List Out) r =>
+    let o := acquire p acc.1 (optInt r "arrivalNs") 1
+    (o.1, acc.2 ++ [o.2])) (init, [])
+  let rows := reqs.zip outs
+  let agree := reqs.length == reqOps.length && rows.all fun (r, o) =>
+    let res := optStr r "result"; let w := optInt r "waitNs" (-1); let canc := optBool r "cancelled"
+    if !o.permitted then res == "rateLimited" && optInt r "status" == 429
+    else if o.wait ≤ 0 then res == "" && w == -1
+    else res == "" && (w == o.wait || (canc && w == -1))
+  -- spec on the observation: the requests the limiter released (timer fired: arrival + the wait it was
+  -- given; admitted at once and not cancelled: arrival); cancelled waiters are not counted — a subset of
+  -- the reservations, so the bound must hold for it whatever the code does with a cancelled slot
+  let hist : Hist := reqs.filterMap fun r =>
+    let res := optStr r "result"; let w := optInt r "waitNs" (-1); let canc := optBool r "cancelled"
+    if res != "" then none
+    else if w ≥ 0 then some (optInt r "arrivalNs", ⟨true, w⟩)
+    else if !canc then some (optInt r "arrivalNs", ⟨true, 0⟩)
+    else none
+  let boundOK := hist.all fun e => decide (cnt P hist (relCycle P e) ≤ L.toNat)
+  let waitOK := hist.all fun e => decide (0 ≤ e.2.wait) && decide (e.2.wait ≤ T)
+  let anyCancel := reqs.any (fun r => optBool r "cancelled")
+  let midCancel := ops.any (fun o => optStr o "op" == "cancel")
+  let waited := hist.any (fun e => decide (e.2.wait > 0))
+  let rej := reqs.any (fun r => optStr r "result" != "")
+  pure { agree := agree, spec := boundOK && waitOK,
+         expected := outsToJson outs,
+         tags := [s!"L={L}"] ++ (if waited then ["wait"] else []) ++ (if rej then ["reject"] else [])
+           ++ (if midCancel then ["cancel:while-waiting"] else []) ++ (if anyCancel then ["cancelled-request"] else []),
+         nontrivial := waited && anyCancel,
+         sig := if boundOK && waitOK then "" else if !boundOK then
+                  (if anyCancel then "wait:period-overfull-after-cancel" else "wait:period-overfull")
+                else "wait:wait-out-of-bounds" }
+
 def judges : List (String × Judge) :=
-  [("C09", judge), ("core", judge), ("filter", judgeFilter), ("multi", judgeMulti), ("mqtt", judgeMqtt)]
+  [("C09", judge), ("core", judge), ("filter", judgeFilter), ("multi", judgeMulti), ("mqtt", judgeMqtt),
+   ("wait", judgeWait)]
 
 end Driver.C09
 
